@@ -66,6 +66,8 @@ struct Case {
     /// complete bytes of whole parts (by zip name), replacing the generated ones (malformed workbook / styles /
     /// shared-string parts)
     raw: Vec<(String, Vec<u8>)>,
+    /// shared string items with rich-text runs / phonetic data and foreign records between them (writer seed)
+    sstx: Option<u64>,
     /// `-` = well-formed; otherwise the name of the single fault that was injected
     fault: String,
     sheets: Vec<SheetCase>,
@@ -166,7 +168,7 @@ impl Case {
         };
         let spre = if self.spre.is_empty() { "-".to_string() } else { self.spre.iter().map(|(i, p)| format!("{i}:{}", hex(p))).collect::<Vec<_>>().join(",") };
         let raw = if self.raw.is_empty() { "-".to_string() } else { self.raw.iter().map(|(n, b)| format!("{n}:{}", hex(b))).collect::<Vec<_>>().join(",") };
-        let mut s = format!("xlsb d={} xfs={xfs} fmts={fmts} sst={sst} fr={fr} z={} spre={spre} raw={raw} fault={}", self.date1904 as u8, self.deflate as u8, self.fault);
+        let mut s = format!("xlsb d={} xfs={xfs} fmts={fmts} sst={sst} fr={fr} z={} spre={spre} raw={raw} sstx={} fault={}", self.date1904 as u8, self.deflate as u8, self.sstx.map_or("-".to_string(), |x| x.to_string()), self.fault);
         for sh in &self.sheets {
             s.push_str(&format!(
                 " # {} {} {}",
@@ -244,7 +246,7 @@ impl Case {
                 items: t[3..].iter().map(|x| Fr::parse(x)).collect(),
             });
         }
-        Case { date1904: val("d=") == "1", xfs, fmts, sst, framing, deflate: val("z=") == "1", spre, raw, fault: val("fault=").to_string(), sheets }
+        Case { date1904: val("d=") == "1", xfs, fmts, sst, framing, deflate: val("z=") == "1", spre, raw, sstx: head.iter().find_map(|t| t.strip_prefix("sstx=")).and_then(|x| x.parse().ok()), fault: val("fault=").to_string(), sheets }
     }
 }
 
@@ -527,6 +529,7 @@ fn build_book(c: &Case, parts: &[Vec<u8>]) -> XlsbBook {
     b.deflate = c.deflate;
     b.styles_pre = c.spre.clone();
     b.raw_parts = c.raw.clone();
+    b.sst_extras = c.sstx;
     for (sh, p) in c.sheets.iter().zip(parts) {
         let mut s = XlsbSheet::new(&sh.name);
         s.state = sh.state;
@@ -653,7 +656,8 @@ fn run_case(c: &Case, drv: &mut Driver, rep: Option<&mut Counters>) -> Outcome {
     }
     let book = build_book(c, &parts);
     let file = book.to_bytes();
-    let wellformed = c.fault == "-";
+    // since fix D40 (from_sparse takes min / max over all cells) the row order does not matter: the oracle applies
+    let wellformed = c.fault == "-" || c.fault == "rows_unsorted";
     let mut rep = rep;
 
     // open
@@ -741,7 +745,9 @@ fn run_case(c: &Case, drv: &mut Driver, rep: Option<&mut Counters>) -> Outcome {
         // D37 guard: never let the reader (or the model) build a dense range above 2^21 cells — a fault or a
         // shrinking step can move cells far apart
         let area = drv.ask(&format!("area {fm} {} {ss} {}", c.date1904 as u8, hex(&parts[i])));
-        if area.parse::<u64>().map_or(false, |a| a > 1 << 21) {
+        // (not for the one case that exists to reach the `u32` overflow of the column span: nothing is allocated there)
+        let span_case = c.fault == "col_span_u32";
+        if !span_case && area.parse::<u64>().map_or(false, |a| a > 1 << 21) {
             if let Some(rep) = rep.as_deref_mut() {
                 rep.count("skipped_sheet_over_area_cap");
             }
@@ -801,7 +807,7 @@ fn run_case(c: &Case, drv: &mut Driver, rep: Option<&mut Counters>) -> Outcome {
             }
         });
         if let Ok(Some(a)) = impl_area {
-            if a > 1 << 21 {
+            if a > 1 << 21 && !span_case {
                 out.fails.push(("impl_vs_model".into(), "impl_bbox_over_cap".into(), format!("next_cell yields cells spanning {a} positions"), format!("area {area}"), "-".into()));
                 if let Some(rep) = rep.as_deref_mut() {
                     rep.count("skipped_sheet_impl_area");
@@ -1207,6 +1213,7 @@ fn gen_case(rng: &mut Rng) -> Case {
         deflate: rng.chance(1, 2),
         spre,
         raw: vec![],
+        sstx: if nsst > 0 && rng.chance(1, 2) { Some(rng.below(1 << 20)) } else { None },
         fault: "-".into(),
         sheets,
     }
@@ -1475,6 +1482,7 @@ fn base_case(data: Vec<It>) -> Case {
         deflate: false,
         spre: vec![],
         raw: vec![],
+        sstx: None,
         fault: "-".into(),
         sheets: vec![sheet_of(data)],
     }
@@ -1524,6 +1532,13 @@ fn corpus() -> Vec<Case> {
         it.lenw = (i % 5) as u8;
     }
     v.push(c);
+    // shared strings with rich-text runs, phonetic data and foreign records between the items
+    for seed in [1u64, 2, 3, 5] {
+        let mut c = base_case(vec![row(0), cell(0, 0, Kind::Isst(0), false), cell(1, 0, Kind::Isst(2), false), cell(2, 0, Kind::Isst(1), false)]);
+        c.sst = Some(vec!["漢字".encode_utf16().collect(), vec![], "third".encode_utf16().collect()]);
+        c.sstx = Some(seed);
+        v.push(c);
+    }
     // empty sheet
     v.push(base_case(vec![]));
     // styles part with a font record whose payload contains the bytes E9 04 (read_styles scanned payloads as ids)
@@ -1629,6 +1644,10 @@ fn corpus() -> Vec<Case> {
     let mut c = base_case(vec![row(0), cell(0, 0, Kind::Bool(1), false)]);
     c.sheets[0].items[1] = Fr { it: It::Raw { id: 0x94, payload: vec![0, 0, 0, 0, 0xFF, 0xFF, 0xFF, 0xFF, 0, 0, 0, 0, 0xFF, 0xFF, 0xFF, 0xFF] }, wide: false, lenw: 0 };
     c.fault = "dims_full".into();
+    v.push(c);
+    // two cells u32::MAX columns apart: `col_end - col_start + 1` in Range::from_sparse does not fit u32
+    let mut c = base_case(vec![row(0), cell(0, 0, Kind::Bool(1), false), cell(0xFFFF_FFFF, 0, Kind::Bool(0), false)]);
+    c.fault = "col_span_u32".into();
     v.push(c);
     // formula records cut inside their formula (former panic sites of next_formula)
     for (fault, kind, tail) in [
@@ -1903,6 +1922,9 @@ fn count_case(c: &Case, rep: &mut Counters) {
     });
     if !c.spre.is_empty() {
         rep.count("styles_with_font_records");
+    }
+    if c.sstx.is_some() {
+        rep.count("sst_with_rich_phonetic_foreign");
     }
     rep.count(match &c.xfs {
         None => "styles_absent",
